@@ -10,6 +10,10 @@ SPEC = {
         # bursts: up to 1000 start/finish reports parked on the channel when a wait call starts
         {"name": "term-burst", "pkg": P, "kind": "plain", "run": "^TestVerifC19TermBurst$",
          "quick": {"shards": 2, "timeout": 240}, "thorough": {"shards": 8, "timeout": 900}},
+        # the real serverHandler / clientHandler with failing and succeeding connections, then SIGINT
+        {"name": "handlers", "pkg": P, "kind": "rapid", "run": "^TestVerifC19Handlers$",
+         "quick": {"checks": 60, "shards": 1, "timeout": 240, "shrinktime": "6s"},
+         "thorough": {"checks": 600, "shards": 4, "timeout": 900, "shrinktime": "10s"}},
         {"name": "term-machine", "pkg": P, "kind": "rapid", "run": "^TestVerifC19TermMachine$",
          "quick": {"checks": 3000, "shards": 1, "timeout": 240, "shrinktime": "6s"},
          "thorough": {"checks": 15000, "shards": 16, "timeout": 900, "shrinktime": "10s"}},
